@@ -118,7 +118,22 @@ func tail(s string, n int) string {
 	return s
 }
 
+// run replays one counterexample file natively.  A run that ends without any outcome line and
+// without a crash (a machine so loaded that the process ran into the time limit) is repeated, at
+// most twice, before it is reported as "no outcome".
 func (n *nativeRunner) run(fn *ssa.Function, cex string) (nativeOut, error) {
+	var out nativeOut
+	var err error
+	for attempt := 0; attempt < 3; attempt++ {
+		out, err = n.runOnce(fn, cex)
+		if err == nil || !strings.Contains(err.Error(), "replay produced no outcome") {
+			break
+		}
+	}
+	return out, err
+}
+
+func (n *nativeRunner) runOnce(fn *ssa.Function, cex string) (nativeOut, error) {
 	bin, err := n.build(fn)
 	if err != nil {
 		return nativeOut{}, err
